@@ -215,7 +215,9 @@ func (s *Session) Topics() ([]string, []byte, error) {
 	return topics, qoss, nil
 }
 
-// ID returns the session ID.
+// ID returns the session ID. It is the client identifier the session was
+// initialized with; Cmsg is not consulted, because Update replaces it (under
+// the mutex) when a later connection resumes the session.
 func (s *Session) ID() string {
-	return string(s.Cmsg.ClientID())
+	return s.id
 }
